@@ -419,11 +419,16 @@ pub struct FetchModel {
     pub cands_started: HashMap<u32, usize>,
     pub deps_completed: HashSet<u32>,
     pub cands_completed: HashSet<u32>,
+    /// requests of the current solve that have started and not completed (gated providers)
+    deps_outstanding: HashSet<u32>,
+    cands_outstanding: HashSet<u32>,
 }
 
 impl FetchModel {
     pub fn new() -> Self {
         FetchModel {
+            deps_outstanding: HashSet::new(),
+            cands_outstanding: HashSet::new(),
             known_reqs: vec![],
             known_names: HashSet::new(),
             deps_started: HashMap::new(),
@@ -451,6 +456,9 @@ impl FetchModel {
     /// (async provider); otherwise a call completes immediately.
     pub fn step(&mut self, c: &Case, problem: &Problem, log: &[Call], gated: bool, check_causal: bool) -> Result<(), Failure> {
         self.learn(&c.u, &problem.reqs, &problem.constraints);
+        // whatever an earlier solve left outstanding was dropped when it returned
+        self.deps_outstanding.clear();
+        self.cands_outstanding.clear();
         for call in log {
             match call {
                 Call::GetDependencies(sid) => {
@@ -467,6 +475,12 @@ impl FetchModel {
                         });
                     }
                     *self.deps_started.entry(*sid).or_default() += 1;
+                    if gated && !self.deps_outstanding.insert(*sid) {
+                        return Err(Failure {
+                            signature: "C09:dependencies-requested-twice".into(),
+                            detail: format!("get_dependencies({}) requested again while the first request is still outstanding", c.u.display_solvable(s)),
+                        });
+                    }
                     if check_causal {
                         let causal = problem.soft.contains(&s)
                             || self.known_reqs.iter().any(|r| c.u.req_cands(r).contains(&s));
@@ -502,6 +516,12 @@ impl FetchModel {
                         });
                     }
                     *self.cands_started.entry(*nid).or_default() += 1;
+                    if gated && !self.cands_outstanding.insert(*nid) {
+                        return Err(Failure {
+                            signature: "C09:candidates-requested-twice".into(),
+                            detail: format!("get_candidates({}) requested again while the first request is still outstanding", c.u.packages[pi].name),
+                        });
+                    }
                     if check_causal && !self.known_names.contains(&pi) {
                         return Err(Failure {
                             signature: "C09:acausal-get-candidates".into(),
@@ -516,6 +536,7 @@ impl FetchModel {
                     }
                 }
                 Call::Completed(ReqKind::Dependencies, sid) => {
+                    self.deps_outstanding.remove(sid);
                     self.deps_completed.insert(*sid);
                     if let Some(&s) = c.ix.solvable.get(sid) {
                         if let Deps::Known { reqs, constrains } = &c.u.cand(s).deps {
@@ -524,7 +545,14 @@ impl FetchModel {
                         }
                     }
                 }
+                Call::Dropped(ReqKind::Dependencies, sid) => {
+                    self.deps_outstanding.remove(sid);
+                }
+                Call::Dropped(ReqKind::Candidates, nid) => {
+                    self.cands_outstanding.remove(nid);
+                }
                 Call::Completed(ReqKind::Candidates, nid) => {
+                    self.cands_outstanding.remove(nid);
                     self.cands_completed.insert(*nid);
                 }
                 _ => {}
@@ -572,6 +600,15 @@ impl C09 {
         }
         let gated = matches!(sc.rt, Runtime::Async { .. });
         let mut session = Session::new(c.u.clone(), &sc.rt, None);
+        // general stage, a quarter of the asynchronous cases: the provider's sort_candidates
+        // looks at the dependencies of the candidates it ranks (and at the candidates of the
+        // packages those mention) through the SolverCache - requests for matching candidates of
+        // requirements already obtained, made concurrently with the solver's own
+        let reentrant = gated && !self.conflict_free && hash_of(&(&c.problem, c.u.vsets.len())) % 4 == 0;
+        if reentrant {
+            session.provider().probe.set(crate::provider::SortProbe::Deps);
+            rep.labels.push("re-entrant-sort");
+        }
         let mut model = FetchModel::new();
         let mut problems = vec![c.problem.clone()];
         problems.extend(sc.more.iter().cloned());
@@ -589,7 +626,7 @@ impl C09 {
         // a solve that the provider cancels part-way is an ordinary part of a solver's history:
         // what was obtained before the cancellation stays obtained
         let mut plan: Vec<(&Problem, Cancel)> = vec![];
-        if !self.conflict_free {
+        if !self.conflict_free && !reentrant {
             if let Some(&k) = sc.extra.first() {
                 if k % 3 != 0 {
                     plan.push((&problems[0], Cancel::Transient((k / 3 % 48) as u64)));
@@ -720,7 +757,7 @@ impl C09 {
     }
 }
 
-struct_property!(C09, "C09", "tape -> no-hint universe; (general stage) two successive problems solved on ONE solver, sync or async, in two thirds of the cases preceded by a solve that the provider cancels at a generated poll; the provider call log is checked as a history: every get_dependencies(s) is for a soft requirement or a matching candidate of a requirement already obtained (root or previously returned dependencies), every get_candidates(n) is for a name those dependencies mention, and no key is requested again after it completed (across both solves); (conflict-free stage) on universes that are conflict-free by construction dependencies are requested for exactly the solution and candidates for exactly the mentioned names; in a third of these cases the solver was used before for a different generated problem (possibly cancelled part-way), and then the conflict-free solve itself may request dependencies of solution members only. Non-trivial: >=3 candidates with dependencies were never fetched, or a second solve ran on the same solver. Distinct = distinct hash of case.");
+struct_property!(C09, "C09", "tape -> no-hint universe; (general stage) two successive problems solved on ONE solver, sync or async, in two thirds of the cases preceded by a solve that the provider cancels at a generated poll; in a quarter of the asynchronous cases the provider's sort_candidates itself looks up dependencies and candidates through the SolverCache (no request may start while one for the same key is outstanding); the provider call log is checked as a history: every get_dependencies(s) is for a soft requirement or a matching candidate of a requirement already obtained (root or previously returned dependencies), every get_candidates(n) is for a name those dependencies mention, and no key is requested again after it completed (across both solves); (conflict-free stage) on universes that are conflict-free by construction dependencies are requested for exactly the solution and candidates for exactly the mentioned names; in a third of these cases the solver was used before for a different generated problem (possibly cancelled part-way), and then the conflict-free solve itself may request dependencies of solution members only. Non-trivial: >=3 candidates with dependencies were never fetched, or a second solve ran on the same solver. Distinct = distinct hash of case.");
 
 // =============================================================================== C14
 
